@@ -49,6 +49,21 @@ theorem applyRequest_closed {S : Transition → Prop} (m : Mach U) (t : Transiti
       · exact ((Steps.refl _).fail' (allow := allowFwd none) _).closed c0
       · exact (Node.fwdActive_steps _ ⟨_, some i⟩ _ _ (Steps.refl _)).closed c0
 
+theorem applyRequestNoPin_closed {S : Transition → Prop} (m : Mach U) (t : Transition) (c : Closed S m.w) :
+    Closed S (m.applyRequestNoPin t).w := by
+  have c0 := c.snapshot m.root true false
+  unfold applyRequestNoPin
+  dsimp only
+  split
+  · split
+    · exact c0
+    · exact ((Steps.refl _).fail' (allow := allowFwd none) _).closed c0
+  · split
+    · exact (Node.request_steps m.root ⟨_, none⟩ _ _ (Steps.refl _)).closed c0
+    · split
+      · exact ((Steps.refl _).fail' (allow := allowFwd none) _).closed c0
+      · exact (Node.fwdActive_steps _ ⟨_, none⟩ _ _ (Steps.refl _)).closed c0
+
 theorem applyAll_closed {S : Transition → Prop} : (ts : List Transition) → (m : Mach U) → (i : Nat) →
     Closed S m.w → Closed S (m.applyAll ts i).w
   | [], m, i, c => by simp only [applyAll]; exact c
@@ -351,18 +366,10 @@ theorem load_closed {S : Transition → Prop} (m : Mach U) (st : List Bool) (c :
       · exact c
     · exact (World.fail'_logOnly _ _).closed c
 
-theorem foldl_applyRequest_closed {S : Transition → Prop} : (l : List (Transition × Nat)) → (m : Mach U) →
-    Closed S m.w → Closed S (l.foldl (fun m (x : Transition × Nat) => m.applyRequest x.1 x.2) m).w
-  | [], m, c => c
-  | (t, i) :: rest, m, c => by
-    simp only [List.foldl]
-    exact foldl_applyRequest_closed rest _ (applyRequest_closed m t i c)
-
 theorem applyRequests_closed {S : Transition → Prop} (m : Mach U) (ts : List Transition) (c : Closed S m.w) :
-    Closed S (m.applyRequests ts).1.w := by
-  unfold applyRequests
-  dsimp only
-  exact foldl_applyRequest_closed _ _ c.freshControl
+    Closed S (m.applyRequests ts).1.w :=
+  applyRequests_inv (P := fun m' => Closed S m'.w) (fun m' t i h => applyRequest_closed m' t i h)
+    (fun m' t h => applyRequestNoPin_closed m' t h) m ts c.freshControl
 
 /-- Replaying a recorded history exposes exactly the recorded transitions. -/
 theorem replayTransitions_closed {S : Transition → Prop} (m : Mach U) (ts : List Transition) (c : Closed S m.w)
@@ -382,7 +389,7 @@ theorem replayTransitions_closed {S : Transition → Prop} (m : Mach U) (ts : Li
     · dsimp only
       rw [updActivity_w]
       refine (Node.commit_steps _ _ _ (Steps.refl _)).closed ?_
-      exact ⟨c2.requests, (fun _ h => nomatch h), (fun _ h => nomatch h), hts, c2.ds, c2.plans⟩
+      exact ⟨c2.requests, (fun _ h => nomatch h), (fun _ h => nomatch h), (fun t h => hts t (List.mem_of_mem_take h)), c2.ds, c2.plans⟩
     · exact c2
 
 theorem replayEnter_closed {S : Transition → Prop} (m : Mach U) (ts : List Transition) (c : Closed S m.w)
@@ -404,7 +411,7 @@ theorem replayEnter_closed {S : Transition → Prop} (m : Mach U) (ts : List Tra
     · dsimp only
       rw [updActivity_w]
       refine (Node.enter_steps _ _ _ (Steps.refl _)).closed ?_
-      exact ⟨c2.requests, (fun _ h => nomatch h), (fun _ h => nomatch h), hts, c2.ds, c2.plans⟩
+      exact ⟨c2.requests, (fun _ h => nomatch h), (fun _ h => nomatch h), (fun t h => hts t (List.mem_of_mem_take h)), c2.ds, c2.plans⟩
     · exact c2
 
 end Mach
